@@ -145,3 +145,35 @@ Example C05_bytes_example_run :
   | _ => False
   end.
 Proof. vm_compute. split; reflexivity. Qed.
+
+(* ------------------------------------------------------------------------------------------
+   Consequences for callers that narrow or widen a range (Proofs/RTreeMono). *)
+From BT Require Import Proofs.RTreeMono.
+
+(* On the bytes the writer lays out, widening a query on the same chromosome (start no later,
+   end no earlier) never loses a block: every block the reader's search returns for the narrow
+   query is returned for the wide one; both searches succeed. *)
+Theorem C05_search_bytes_widen : forall (b ips pos : N) (secs : list sect),
+  2 <= b <= 65535 -> secs <> [] -> sorted_starts (map sect_span secs) -> Forall sect_ok secs ->
+  exists bs levels, write_index b ips pos secs = Ok (bs, levels)
+    /\ (pos + Nlen bs <= U64 ->
+        forall pre post q qs qe qs' qe' fuel, Nlen pre = pos -> (length bs <= fuel)%nat ->
+          qs' <= qs -> qe <= qe' ->
+          exists r r', search_bytes fuel false (pre ++ bs ++ post) (pos + 48) q qs qe = Ok r
+            /\ search_bytes fuel false (pre ++ bs ++ post) (pos + 48) q qs' qe' = Ok r'
+            /\ incl r r').
+Proof. exact search_bytes_widen. Qed.
+Print Assumptions C05_search_bytes_widen.
+
+(* ... and the sections selected by the narrow query are those selected by the wide query,
+   filtered again by the narrow one: same relative (file) order, nothing duplicated. *)
+Theorem C05_scan_widen_refilter : forall secs q qs qe qs' qe', qs' <= qs -> qe <= qe' ->
+  filter (fun s => overlaps q qs qe (sect_span s)) secs =
+  filter (fun s => overlaps q qs qe (sect_span s)) (filter (fun s => overlaps q qs' qe' (sect_span s)) secs).
+Proof. exact scan_widen_filter. Qed.
+Print Assumptions C05_scan_widen_refilter.
+
+(* Non-vacuity: on the three-level instance, [5,25) on chromosome 1 inside [0,40). *)
+Example C05_widen_example : scan ex_secs 1 5 25 = [(104, 1); (105, 1); (106, 1)]
+  /\ scan ex_secs 1 0 40 = [(104, 1); (105, 1); (106, 1); (107, 1)].
+Proof. vm_compute. split; reflexivity. Qed.
